@@ -48,24 +48,25 @@ Record mgr := mkM {
   m_since : Z;                        (* packetsSinceLastChange *)
   m_ppc : Z;                          (* packetsPerConnectionID *)
   m_closed : bool;
-  m_log : list mev                    (* callbacks, newest first *)
+  m_log : list mev;                   (* callbacks, newest first *)
+  m_advlimit : Z                      (* [UQUIC] advertisedLimit (SetConnectionIDLimit), 0 unless spec-driven *)
 }.
 
 Definition mgr_init (initial : cid) : mgr :=
-  mkM [] 0 [] false 0 0 initial None 0 0 false [].
+  mkM [] 0 [] false 0 0 initial None 0 0 false [] 0.
 
 Definition set_queue (st : mgr) q :=
   mkM q (m_hprobe st) (m_probing st) (m_hsdone st) (m_active st) (m_hretired st) (m_acid st) (m_atok st)
-      (m_since st) (m_ppc st) (m_closed st) (m_log st).
+      (m_since st) (m_ppc st) (m_closed st) (m_log st) (m_advlimit st).
 Definition set_probing (st : mgr) p :=
   mkM (m_queue st) (m_hprobe st) p (m_hsdone st) (m_active st) (m_hretired st) (m_acid st) (m_atok st)
-      (m_since st) (m_ppc st) (m_closed st) (m_log st).
+      (m_since st) (m_ppc st) (m_closed st) (m_log st) (m_advlimit st).
 Definition set_hretired (st : mgr) h :=
   mkM (m_queue st) (m_hprobe st) (m_probing st) (m_hsdone st) (m_active st) h (m_acid st) (m_atok st)
-      (m_since st) (m_ppc st) (m_closed st) (m_log st).
+      (m_since st) (m_ppc st) (m_closed st) (m_log st) (m_advlimit st).
 Definition emit (st : mgr) (e : mev) :=
   mkM (m_queue st) (m_hprobe st) (m_probing st) (m_hsdone st) (m_active st) (m_hretired st) (m_acid st) (m_atok st)
-      (m_since st) (m_ppc st) (m_closed st) (e :: m_log st).
+      (m_since st) (m_ppc st) (m_closed st) (e :: m_log st) (m_advlimit st).
 
 (** the loop over [h.pathProbing] of [add]: entries below Retire Prior To are retired *)
 Fixpoint retire_probing_below (rpt : Z) (p : list (Z * ncid)) (log : list mev) : list (Z * ncid) * list mev :=
@@ -114,7 +115,7 @@ Definition update_conn_id (draw : Z) (st : mgr) : option mgr :=
     Some (mkM rest (m_hprobe st) (m_probing st) (m_hsdone st) (n_seq front)
               (Z.max (m_hretired st) (m_active st)) (n_cid front) (Some (n_tok front))
               0 (PacketsPerConnectionID / 2 + draw) (m_closed st)
-              (EvAddTok (n_tok front) :: log2))
+              (EvAddTok (n_tok front) :: log2) (m_advlimit st))
   end.
 
 (** the two retirement loops of [add] driven by Retire Prior To *)
@@ -122,13 +123,13 @@ Definition retire_probing_stage (rpt : Z) (st : mgr) : mgr :=
   if rpt =? 0 then st else
     let (p, l) := retire_probing_below rpt (m_probing st) (m_log st) in
     mkM (m_queue st) (m_hprobe st) p (m_hsdone st) (m_active st) (m_hretired st) (m_acid st)
-        (m_atok st) (m_since st) (m_ppc st) (m_closed st) l.
+        (m_atok st) (m_since st) (m_ppc st) (m_closed st) l (m_advlimit st).
 
 Definition retire_queue_stage (rpt : Z) (st : mgr) : mgr :=
   if m_hretired st <? rpt then
     let (q, l) := retire_queue_below rpt (m_queue st) (m_log st) in
     mkM q (m_hprobe st) (m_probing st) (m_hsdone st) (m_active st) rpt (m_acid st)
-        (m_atok st) (m_since st) (m_ppc st) (m_closed st) l
+        (m_atok st) (m_since st) (m_ppc st) (m_closed st) l (m_advlimit st)
   else st.
 
 (** the entry of [pathProbing] that carries sequence number [seq] (the loop at the top of [add]) *)
@@ -172,7 +173,7 @@ Definition zlength {A} (l : list A) : Z := Z.of_nat (List.length l).
 Definition mgr_add (seq rpt : Z) (c : cid) (tok : Z) (draw : Z) (st : mgr) : mgr * rclass :=
   let (st', r) := mgr_add_inner seq rpt c tok draw st in
   match r with
-  | ROk => if MaxActiveConnectionIDs <=? zlength (m_queue st') then (st', RLimit) else (st', ROk)
+  | ROk => if Z.max MaxActiveConnectionIDs (m_advlimit st') <=? zlength (m_queue st') then (st', RLimit) else (st', ROk)
   | _ => (st', r)
   end.
 
@@ -200,29 +201,29 @@ Definition mgr_get (draw : Z) (st : mgr) : mgr * rclass * cid :=
 
 Definition mgr_sent (k : Z) (st : mgr) : mgr :=
   mkM (m_queue st) (m_hprobe st) (m_probing st) (m_hsdone st) (m_active st) (m_hretired st) (m_acid st) (m_atok st)
-      (m_since st + k) (m_ppc st) (m_closed st) (m_log st).
+      (m_since st + k) (m_ppc st) (m_closed st) (m_log st) (m_advlimit st).
 
 Definition mgr_hsdone (st : mgr) : mgr :=
   mkM (m_queue st) (m_hprobe st) (m_probing st) true (m_active st) (m_hretired st) (m_acid st) (m_atok st)
-      (m_since st) (m_ppc st) (m_closed st) (m_log st).
+      (m_since st) (m_ppc st) (m_closed st) (m_log st) (m_advlimit st).
 
 Definition mgr_close (st : mgr) : mgr :=
   let log1 := match m_atok st with Some t => EvRemTok t :: m_log st | None => m_log st end in
   let log2 := fold_left (fun l (pe : Z * ncid) => EvRemTok (n_tok (snd pe)) :: l) (m_probing st) log1 in
   mkM (m_queue st) (m_hprobe st) (m_probing st) (m_hsdone st) (m_active st) (m_hretired st) (m_acid st) (m_atok st)
-      (m_since st) (m_ppc st) true log2.
+      (m_since st) (m_ppc st) true log2 (m_advlimit st).
 
 Definition mgr_change_initial (c : cid) (st : mgr) : mgr * rclass :=
   if m_active st =? 0 then
     (mkM (m_queue st) (m_hprobe st) (m_probing st) (m_hsdone st) (m_active st) (m_hretired st) c (m_atok st)
-         (m_since st) (m_ppc st) (m_closed st) (m_log st), ROk)
+         (m_since st) (m_ppc st) (m_closed st) (m_log st) (m_advlimit st), ROk)
   else (st, RPanic).
 
 Definition mgr_set_token (t : Z) (st : mgr) : mgr * rclass :=
   if m_closed st then (st, RPanic) else
   if m_active st =? 0 then
     (mkM (m_queue st) (m_hprobe st) (m_probing st) (m_hsdone st) (m_active st) (m_hretired st) (m_acid st) (Some t)
-         (m_since st) (m_ppc st) (m_closed st) (EvAddTok t :: m_log st), ROk)
+         (m_since st) (m_ppc st) (m_closed st) (EvAddTok t :: m_log st) (m_advlimit st), ROk)
   else (st, RPanic).
 
 Fixpoint plookup (id : Z) (p : list (Z * ncid)) : option ncid :=
@@ -249,7 +250,7 @@ Definition mgr_path_get (id : Z) (st : mgr) : mgr * rclass * cid * bool :=
       | [] => (st, ROk, [], false)
       | front :: rest =>
         (mkM rest (n_seq front) (m_probing st ++ [(id, front)]) (m_hsdone st) (m_active st) (m_hretired st)
-             (m_acid st) (m_atok st) (m_since st) (m_ppc st) (m_closed st) (EvAddTok (n_tok front) :: m_log st),
+             (m_acid st) (m_atok st) (m_since st) (m_ppc st) (m_closed st) (EvAddTok (n_tok front) :: m_log st) (m_advlimit st),
          ROk, n_cid front, true)
       end
     end
@@ -266,7 +267,7 @@ Definition mgr_path_retire (id : Z) (st : mgr) : mgr * rclass :=
     | Some e =>
       (mkM (m_queue st) (m_hprobe st) (pdelete id (m_probing st)) (m_hsdone st) (m_active st) (m_hretired st)
            (m_acid st) (m_atok st) (m_since st) (m_ppc st) (m_closed st)
-           (EvRemTok (n_tok e) :: EvRetire (n_seq e) :: m_log st), ROk)
+           (EvRemTok (n_tok e) :: EvRetire (n_seq e) :: m_log st) (m_advlimit st), ROk)
     end
   end.
 
@@ -274,6 +275,12 @@ Definition mgr_path_retire (id : Z) (st : mgr) : mgr * rclass :=
 Definition mgr_is_token (t : Z) (st : mgr) : bool :=
   match m_atok st with Some a => a =? t | None => false end
   || existsb (fun pe : Z * ncid => n_tok (snd pe) =? t) (m_probing st).
+
+(** u_conn_id_manager.go [SetConnectionIDLimit]: remembers the active_connection_id_limit a
+    spec-driven client advertised *)
+Definition mgr_set_limit (n : Z) (st : mgr) : mgr :=
+  mkM (m_queue st) (m_hprobe st) (m_probing st) (m_hsdone st) (m_active st) (m_hretired st) (m_acid st) (m_atok st)
+      (m_since st) (m_ppc st) (m_closed st) (m_log st) n.
 
 (** Operations of a manager history (oracle draws are part of the operation). *)
 Inductive mop :=
@@ -288,7 +295,7 @@ Inductive mop :=
 | MPathGet (id : Z)
 | MPathRetire (id : Z)
 | MIsTok (tok : Z)
-| MSetLimit (n : Z).        (* u_conn_id_manager.go SetConnectionIDLimit: a no-op *)
+| MSetLimit (n : Z).        (* u_conn_id_manager.go SetConnectionIDLimit *)
 
 (** what an operation returns: class, connection ID (Get / GetConnIDForPath), flag
     (GetConnIDForPath's ok, IsActiveStatelessResetToken) *)
@@ -307,7 +314,7 @@ Definition mgr_step (o : mop) (st : mgr) : mgr * mret :=
   | MPathGet id => let '(st', r, c, ok) := mgr_path_get id st in (st', mkR r c ok)
   | MPathRetire id => let (st', r) := mgr_path_retire id st in (st', mkR r [] false)
   | MIsTok t => (st, mkR ROk [] (mgr_is_token t st))
-  | MSetLimit _ => (st, mkR ROk [] false)
+  | MSetLimit n => (mgr_set_limit n st, mkR ROk [] false)
   end.
 
 Definition mgr_run (ops : list mop) (st : mgr) : mgr :=
